@@ -81,7 +81,7 @@ def yielding_handler():
 
 
 class ConnHarness:
-    VARS = ("avail", "dupfree", "inflight", "reqs", "orphans", "srv", "st", "ph", "rid", "got", "errs", "cps", "pages", "cperr",
+    VARS = ("dfn", "avail", "dupfree", "inflight", "reqs", "orphans", "srv", "st", "ph", "rid", "got", "errs", "cps", "pages", "cperr",
             "defunct", "closed", "writable")
     current = None
     DSE_V1 = 65
@@ -120,6 +120,7 @@ class ConnHarness:
         # available id, the code whichever it likes; the property does not say which (see Connection.tla, AnyId)
         self.pi = {i: i for i in range(max_id + 1)}
         self._rid_name = {}
+        self.dfn = "none"
         orig_get = c.get_request_id
 
         def get_request_id():
@@ -278,6 +279,22 @@ class ConnHarness:
     def act_Close(self, r, rid):
         self.conn.close()
 
+    # defunct() called by the heartbeat thread, concurrently with the loop thread's own socket error
+    def act_HbDefunctBegin(self, r, rid):
+        from cassandra.connection import ConnectionException
+        self.sched.spawn("H", self.conn.defunct, ConnectionException("heartbeat failed (scripted)"))
+        lab = self.sched.run_until("H", "rel:conn")        # through the guard's critical section
+        assert lab == "rel:conn", lab
+        self.dfn = "begun"
+
+    def act_SocketErrorDuringDefunct(self, r, rid):
+        self.conn.socket_error()
+        self.dfn = "begun2"
+
+    def act_HbDefunctFinish(self, r, rid):
+        self.sched.finish("H")
+        self.dfn = "done"
+
     # ------------------------------------------------------------ projection
     def _req_of_cb(self, cb):
         fut = getattr(getattr(cb, "func", None), "__self__", None)
@@ -350,7 +367,7 @@ class ConnHarness:
         pool_ids = list(c.request_ids)
         avail = frozenset(m(i) for i in pool_ids) | frozenset(m(i) for i in range(c.highest_request_id + 1, c.max_request_id + 1))
         return {
-            "avail": avail, "dupfree": len(set(pool_ids)) != len(pool_ids) or any(i > c.highest_request_id for i in pool_ids),
+            "dfn": self.dfn, "avail": avail, "dupfree": len(set(pool_ids)) != len(pool_ids) or any(i > c.highest_request_id for i in pool_ids),
             "inflight": c.in_flight,
             "reqs": reqs, "orphans": frozenset(m(i) for i in c.orphaned_request_ids), "srv": srv, "st": st,
             "ph": {r: ("encode" if r in self.sending else "none") for r in self.req_names}, "rid": rid,
@@ -372,7 +389,7 @@ def spec_view(state):
             return {i + 1: x for i, x in enumerate(v)}
         return dict(v)
     return {
-        "avail": frozenset(state["avail"]), "dupfree": False, "inflight": state["inflight"],
+        "dfn": str(state["dfn"]), "avail": frozenset(state["avail"]), "dupfree": False, "inflight": state["inflight"],
         "reqs": fn(state["reqs"]), "orphans": frozenset(state["orphans"]),
         "srv": frozenset(tuple(m) for m in state["srv"]), "st": fn(state["st"]), "ph": fn(state["ph"]), "rid": fn(state["rid"]),
         "got": {k: frozenset(v) for k, v in fn(state["got"]).items()}, "errs": fn(state["errs"]),
